@@ -404,8 +404,15 @@ class CodecMonitor:
 
 def gen_case(rnd, pool, java_bias=0.0, big=False):
     if big:
-        t = auxgen.gen_type(rnd, rnd.choice([5, 6]))
-        return t, auxgen.gen_value(rnd, t, pool, maxlen=rnd.choice([8, 40]))
+        # either deep (nesting 5-6, short containers) or wide (nesting <= 2,
+        # hundreds of elements): the value stays below ~10^4 leaves so that
+        # the CPU-time guard of a single call is never a matter of size
+        if rnd.random() < 0.5:
+            t = auxgen.gen_type(rnd, rnd.choice([5, 6]))
+            return t, auxgen.gen_value(rnd, t, pool, maxlen=3)
+        t = auxgen.gen_type(rnd, rnd.choice([1, 2]))
+        return t, auxgen.gen_value(rnd, t, pool,
+                                   maxlen=rnd.choice([60, 300]))
     return _gen_case(rnd, pool, java_bias)
 
 
